@@ -1,6 +1,218 @@
-/-! Driver commands of the `Path` cluster.  `handle` returns `none` for commands that are not its own. -/
-namespace Driver.Path
+import TbotVerif.Base.Bytes
+import TbotVerif.Spec.Path
+/-! Driver commands of the `Path` cluster (C12).
 
-def handle (_toks : List String) : Option String := none
+    `path <mode> <machines> <host> <args> <chain> <queries>` prints the model observation
+    (`mode` = `pure`: the pathlib model, `tpath`: the tbot wrapper model);
+    `spec C12 <the same six tokens> || <observation tokens>` prints `1`/`0`;
+    `pathquirk <six tokens>` prints `1` when the case contains the excluded `with_suffix` quirk.
+
+    Syntax (strings are lower-case hex of their UTF-8 bytes, `-` = empty string):
+    * machines: `,`-list of `n<cls>` (fresh instance of class `cls`) / `c<k>` (`machines[k].clone()`)
+    * arg: `s<hex>` | `t<h>:<segs>` | `q:<segs>` | `i` | `@`; segs = `/`-list of hex, `.` = none
+    * args: `,`-list of arg, `.` = none
+    * op: `parent` | `par:<int>` | `wn:<hex>` | `ws:<hex>` | `wx:<hex>` | `jp:<args>` | `div:<arg>`
+      | `rdiv:<arg>` | `rel:<args>`; chain = `;`-list, `.` = none; negative ints are `~3`
+    * query: `str` `parts` `name` `suffix` `suffixes` `stem` `abs` `plen` `plist` `psl:<int|->:<int|->`
+      `o:<op>` `isrel:<args>` `match:<hex>` `cmp:<arg>` `at:<h>` `esc:<h>` `redir:<k>:<h>`
+      `bg:<h>,<arg|->,<arg|->` `auth:<h|->`; queries = `;`-list, `.` = none
+    * observation: `fail:<step>:<Exc>` or one token per query (`.` for none):
+      `E:<Exc>` `s:<hex>` `l:<,-list of hex|.>` `b:0/1` `n:<nat>` `p:<h>:<hex>:<parts>`
+      `P:<,-list of h:hex:parts|.>` `c:<six bits>`; parts = `/`-list of hex, `.` = none. -/
+namespace Driver.Path
+open PathM
+
+def strOfHex (h : String) : Option Str := do
+  let b ← Bytes.ofHex h
+  let s ← String.fromUTF8? (ByteArray.mk b.toArray)
+  pure s.toList
+
+def hexOfStr (s : Str) : String := Bytes.toHex (String.ofList s).toUTF8.toList
+
+def natOf (s : String) : Option Nat := if s.isEmpty then none else s.toNat?
+
+def intOf (s : String) : Option Int :=
+  if s.startsWith "~" then (natOf (s.drop 1).toString).map (fun n => -(n : Int))
+  else (natOf s).map (fun n => (n : Int))
+
+def optIntOf (s : String) : Option (Option Int) :=
+  if s == "-" then some none else (intOf s).map some
+
+def listOf {α : Type} (sep : String) (f : String → Option α) (s : String) : Option (List α) :=
+  if s == "." then some [] else (s.splitOn sep).mapM f
+
+/-- split at the first `:` -/
+def cut (s : String) : String × String :=
+  match s.splitOn ":" with
+  | [] => ("", "")
+  | [a] => (a, "")
+  | a :: rest => (a, ":".intercalate rest)
+
+def segsOf (s : String) : Option (List Str) := listOf "/" strOfHex s
+
+def argOf (s : String) : Option AArg :=
+  if s == "i" then some .bad
+  else if s == "@" then some .self
+  else if s.startsWith "s" then (strOfHex (s.drop 1).toString).map .s
+  else if s.startsWith "q:" then (segsOf (s.drop 2).toString).map .q
+  else if s.startsWith "t" then do
+    let (h, segs) := cut (s.drop 1).toString
+    pure (.t (← natOf h) (← segsOf segs))
+  else none
+
+def argsOf (s : String) : Option (List AArg) := listOf "," argOf s
+
+def opOf (s : String) : Option POp :=
+  let (k, r) := cut s
+  match k with
+  | "parent" => if r.isEmpty then some .parent else none
+  | "par" => (intOf r).map .par
+  | "wn" => (strOfHex r).map .withName
+  | "ws" => (strOfHex r).map .withStem
+  | "wx" => (strOfHex r).map .withSuffix
+  | "jp" => (argsOf r).map .joinpath
+  | "div" => (argOf r).map .div
+  | "rdiv" => (argOf r).map .rdiv
+  | "rel" => (argsOf r).map .relativeTo
+  | _ => none
+
+def optArgOf (s : String) : Option (Option AArg) :=
+  if s == "-" then some none else (argOf s).map some
+
+def queryOf (s : String) : Option Query :=
+  let (k, r) := cut s
+  match k with
+  | "str" => some .str | "parts" => some .parts | "name" => some .name
+  | "suffix" => some .suffix | "suffixes" => some .suffixes | "stem" => some .stem
+  | "abs" => some .isAbs | "plen" => some .plen | "plist" => some .plist
+  | "psl" =>
+    match r.splitOn ":" with
+    | [a, b] => do pure (.pslice (← optIntOf a) (← optIntOf b))
+    | _ => none
+  | "o" => (opOf r).map .op
+  | "isrel" => (argsOf r).map .isRel
+  | "match" => (strOfHex r).map .match
+  | "cmp" => (argOf r).map .cmp
+  | "at" => (natOf r).map .atHost
+  | "esc" => (natOf r).map .escape
+  | "redir" =>
+    match r.splitOn ":" with
+    | [a, b] => do pure (.redir (← natOf a) (← natOf b))
+    | _ => none
+  | "bg" =>
+    match r.splitOn "," with
+    | [h, o, e] => do pure (.bg (← natOf h) (← optArgOf o) (← optArgOf e))
+    | _ => none
+  | "auth" => if r == "-" then some (.auth none) else (natOf r).map (fun h => .auth (some h))
+  | _ => none
+
+def mspecOf (s : String) : Option MSpec :=
+  if s.startsWith "n" then (natOf (s.drop 1).toString).map .fresh
+  else if s.startsWith "c" then (natOf (s.drop 1).toString).map .clone
+  else none
+
+def caseOf (toks : List String) : Option Case :=
+  match toks with
+  | [mode, ms, host, args, chain, queries] => do
+    let pure_ ← (if mode == "pure" then some true else if mode == "tpath" then some false else none)
+    pure { pure := pure_, machines := ← listOf "," mspecOf ms, host := ← natOf host,
+           args := ← argsOf args, chain := ← listOf ";" opOf chain,
+           queries := ← listOf ";" queryOf queries }
+  | _ => none
+
+/-! printing / parsing observations -/
+
+def excStr : Exc → String
+  | .valueError => "ValueError" | .typeError => "TypeError"
+  | .indexError => "IndexError" | .wrongHost => "WrongHostError"
+
+def excOf : String → Option Exc
+  | "ValueError" => some .valueError | "TypeError" => some .typeError
+  | "IndexError" => some .indexError | "WrongHostError" => some .wrongHost
+  | _ => none
+
+def lstStr (sep : String) (xs : List String) : String := if xs.isEmpty then "." else sep.intercalate xs
+
+def b01 (b : Bool) : String := if b then "1" else "0"
+
+def pathStr (h : Nat) (s : Str) (parts : List Str) : String :=
+  s!"{h}:{hexOfStr s}:{lstStr "/" (parts.map hexOfStr)}"
+
+def valStr : Val → String
+  | .s x => "s:" ++ hexOfStr x
+  | .l xs => "l:" ++ lstStr "," (xs.map hexOfStr)
+  | .b x => "b:" ++ b01 x
+  | .n x => s!"n:{x}"
+  | .p h s parts => "p:" ++ pathStr h s parts
+  | .ps xs => "P:" ++ lstStr "," (xs.map fun (h, s, parts) => pathStr h s parts)
+  | .c a b c d e f => "c:" ++ b01 a ++ b01 b ++ b01 c ++ b01 d ++ b01 e ++ b01 f
+
+def resStr : Res → String
+  | .ok v => valStr v
+  | .err e => "E:" ++ excStr e
+
+def obsStr : Obs → String
+  | .fail k e => s!"fail:{k}:{excStr e}"
+  | .results rs => lstStr " " (rs.map resStr)
+
+def bitOf : Char → Option Bool
+  | '0' => some false | '1' => some true | _ => none
+
+def pathOf (s : String) : Option (Nat × Str × List Str) :=
+  match s.splitOn ":" with
+  | [h, x, parts] => do pure (← natOf h, ← strOfHex x, ← segsOf parts)
+  | _ => none
+
+def resOf (s : String) : Option Res :=
+  let (k, r) := cut s
+  match k with
+  | "E" => (excOf r).map .err
+  | "s" => (strOfHex r).map (fun x => .ok (.s x))
+  | "l" => (listOf "," strOfHex r).map (fun x => .ok (.l x))
+  | "b" => match r with
+    | "0" => some (.ok (.b false)) | "1" => some (.ok (.b true)) | _ => none
+  | "n" => (natOf r).map (fun x => .ok (.n x))
+  | "p" => (pathOf r).map (fun (h, x, parts) => .ok (.p h x parts))
+  | "P" => (listOf "," pathOf r).map (fun xs => .ok (.ps xs))
+  | "c" => match r.toList.mapM bitOf with
+    | some [a, b, c, d, e, f] => some (.ok (.c a b c d e f))
+    | _ => none
+  | _ => none
+
+def obsOf (toks : List String) : Option Obs :=
+  match toks with
+  | ["."] => some (.results [])
+  | [t] =>
+    if t.startsWith "fail:" then
+      match t.splitOn ":" with
+      | [_, k, e] => do pure (.fail (← natOf k) (← excOf e))
+      | _ => none
+    else (resOf t).map (fun r => .results [r])
+  | _ => (toks.mapM resOf).map .results
+
+def splitAt2 (toks : List String) (sep : String) : List String × List String :=
+  (toks.takeWhile (· != sep), (toks.dropWhile (· != sep)).drop 1)
+
+/-- `none`: not a command of this cluster -/
+def handle (toks : List String) : Option String :=
+  match toks with
+  | "path" :: rest =>
+    some (match caseOf rest with
+    | some c => obsStr (PathM.run c)
+    | none => "bad-op")
+  | "pathquirk" :: rest =>
+    some (match caseOf rest with
+    | some c => b01 (!c.quirkFree)
+    | none => "bad-op")
+  | "pathwf" :: rest =>
+    some (match caseOf rest with
+    | some c => b01 c.wf
+    | none => "bad-op")
+  | "spec" :: "C12" :: rest =>
+    let (ct, ot) := splitAt2 rest "||"
+    some (match caseOf ct, obsOf ot with
+    | some c, some o => b01 (Spec.C12 c o)
+    | _, _ => "bad-op")
+  | _ => none
 
 end Driver.Path
